@@ -28,6 +28,27 @@ def dfn(facts, name, rule):
 def peek_contract(facts):
     """'BREAK' if peek_type maps byte 0xFF to CborType::BREAK, 'MAJOR' if it only masks the major bits."""
     f = dfn(facts, "peek_type", "R07.2")
+    # first choice: peek_type evaluated for each of the 256 values of the byte under the cursor
+    from .. import minieval
+    brk = [e_["v"] for e_ in facts.enum("CDNS::CborType", rule="R07.2")["enumerators"] if e_["n"] == "BREAK"]
+    if brk:
+        table = {}
+        for b in range(256):
+            env = {"this.m_p[0]": b}
+            try:
+                r = minieval.run_straightline(ir.stmts(f["body"]), env, facts.enums)
+                if r[0] != "return" or r[1].get("e") is None:
+                    table = None
+                    break
+                table[b] = minieval.ev(unwrap(r[1]["e"]), env, facts.enums) & 0xFF
+            except (minieval.Unknown, KeyError, TypeError):
+                table = None
+                break
+        if table is not None:
+            if all(table[b] == (b & 0xE0) for b in range(255)) and table[255] == brk[0] & 0xFF:
+                return "BREAK", f
+            if all(table[b] == (b & 0xE0) for b in range(256)):
+                return "MAJOR", f
     rets = [n for n in ir.walk(f["body"]) if n.get("k") == "Return" and n.get("e") is not None]
     special = False
     for n in ir.walk(f["body"]):
